@@ -37,7 +37,16 @@ def check(run, prog, tier):
 
     # ---- C10-a
     nun = 0
-    for f in sorted(funcs, key=lambda x: x.line):
+    import inline as _inl
+    called_here = {n.get("fn") for g in funcs for b, i, n in g.calls()}
+    for f0 in sorted(funcs, key=lambda x: x.line):
+        # a file-local helper that several removers share is looked at inside each of them
+        if f0.static and f0.name in called_here and any(is_next_of(n["R"]) is not None for b, i, n in f0.nodes() if n.get("k") == "Asg" and n.get("op") == "=") \
+                and not any(g.name != f0.name and g.static and g.name in called_here and False for g in funcs):
+            callers = [g for g in funcs if any(True for _ in g.calls(f0.name))]
+            if callers and all(not g.static or True for g in callers):
+                continue
+        f = _inl.inlined(f0)
         ordn = 0
         for b, i, n in f.nodes():
             if not (n.get("k") == "Asg" and n.get("op") == "="):
@@ -121,7 +130,8 @@ def check(run, prog, tier):
            what="new_call_out inserts before a later entry without subtracting the new delta from it")
 
     # ---- C10-b
-    co = run.need(prog.func("call_out", "lib/efuns/call_out.c"), "call_out()")
+    import inline
+    co = inline.inlined(run.need(prog.func("call_out", "lib/efuns/call_out.c"), "call_out()"))
     run.saw(co)
     invoke = [(b, i, n) for b, i, n in co.calls() if n.get("fn") in ("apply", "call_function_pointer", "safe_apply", "apply_low")]
     run.need(len(invoke) >= 2, "callback invocations in call_out()")
